@@ -338,12 +338,14 @@ def run(ctx):
     t0 = time.time()
     correspondence(ctx, summ)
     ctx.notes.append("correspondence %.0fs" % (time.time() - t0))
-    if ctx.tier == "thorough":
+    if os.environ.get("VERIF_COQCHK") == "1":
+        # independent re-check of the compiled proofs (coqchk has no bytecode VM: it re-evaluates the 84 371-day sweeps with its
+        # own reduction machine and re-checks the standard library; about an hour here) - opt-in
         t0 = time.time()
-        p = sh("timeout 2400 coqchk -silent -o -Q theories RL RL.Props.C07", cwd=COQ, timeout=2500)
+        p = sh("timeout 14000 coqchk -silent -o -Q theories RL RL.Props.C07", cwd=COQ, timeout=14400)
         out = (p.stdout + p.stderr)
         ctx.notes.append("coqchk RL.Props.C07: rc=%d in %.0fs: %s" % (p.returncode, time.time() - t0, out[-600:].strip()))
-        if p.returncode not in (0, 124) or ("Axioms:" in out and "<none>" not in out.split("Axioms:")[1][:200]):
+        if p.returncode != 0 or ("Axioms:" in out and "<none>" not in out.split("Axioms:")[1][:200]):
             raise CheckError("coqchk rejects Props/C07.vo or reports axioms:\n" + out[-2000:])
     ctx.sample({"call": "get_calendar_by_name('nyc').is_holiday/is_bus_day on 2024-01-01..2024-12-31 (hashed)"})
     return ctx.finish(CMD)
